@@ -316,7 +316,7 @@ impl<const H: usize> Writer<H> {
 
         self.sync()?;
 
-        self.flushed_offset.set(offset);
+        self.flushed_offset.truncate(offset);
         self.write_offset = offset;
         // Rewind the buffered writer's file cursor as well, otherwise later appends land at the
         // old physical position, beyond the truncation marker.
